@@ -111,6 +111,16 @@ def r1_ownership(ctx):
                 ctx.fail(c, norm(c)[:50], f"step '{ident}' removes data")
 
 
+def _idp_text(f, R):
+    """resolved text of the local holding the contact index"""
+    for st in walk_no_nested(f, False):
+        if isinstance(st, ast.Assign) and isinstance(st.value, ast.Call) and \
+                call_name(st.value) == "poc.compute_poc" and isinstance(
+                    st.targets[0], ast.Name):
+            return R.text(st.value)
+    return "idp"
+
+
 def r2_relations(ctx):
     steps = _steps(ctx)
     # ---- tip position
@@ -136,18 +146,28 @@ def r2_relations(ctx):
     R = Resolver(f)
     ws = [n for c, n in _writes(f) if c == "force"]
     ctx.floor("force offset assignments", len(ws), 1)
-    poc_ok = any(call_name(c) == "poc.compute_poc" and norm(
+    poc_ok = any(call_name(c) == "poc.compute_poc" and R.text(
         kwarg(c, "force")) == "apret['force']" for c in calls_in(f))
     ctx.check(poc_ok, f, "contact index estimated from the force",
               "the baseline region is not determined from the force column")
     for n in ws:
         v = n.value
         ok = isinstance(v, ast.BinOp) and isinstance(v.op, ast.Sub) and \
-            norm(v.left) == "apret['force']"
-        sc = norm(v.right) if ok else ""
-        scalar = sc in ("np.average(apret['force'][:idp])",
-                        "np.mean(apret['force'][:idp])",
-                        "apret['force'][0]")
+            R.text(v.left) == "apret['force']"
+        alts = []
+        if ok:
+            r_ = v.right
+            if isinstance(r_, ast.Name) and R.reaching_value(r_) is None:
+                alts = [R.text(d) for d in R.defs.get(r_.id, [])
+                        if d is not None]
+            else:
+                alts = [R.text(r_)]
+        sc = " | ".join(alts)
+        good = ("np.average(apret['force'][:idp])",
+                "np.mean(apret['force'][:idp])", "apret['force'][0]")
+        idp_ok = True
+        scalar = bool(alts) and all(
+            a.replace(_idp_text(f, R), "idp") in good for a in alts)
         ctx.check(ok and scalar, n, f"force = force - {sc}",
                   "the force offset correction does not subtract a single "
                   "number (mean of the pre-contact force) from the whole "
@@ -160,8 +180,8 @@ def r2_relations(ctx):
     for n in ws:
         v = n.value
         ok = isinstance(v, ast.BinOp) and isinstance(v.op, ast.Sub) and \
-            norm(v.left) == "apret['tip position']" and isinstance(
-                v.right, ast.Subscript) and norm(v.right.value) == \
+            R.text(v.left) == "apret['tip position']" and isinstance(
+                v.right, ast.Subscript) and R.text(v.right.value) == \
             "apret['tip position']"
         ctx.check(ok, n, f"tip position = {norm(v)[:70]}",
                   "the tip offset correction does not subtract the tip "
@@ -386,15 +406,21 @@ def r3_monotone_test(ctx):
     pre = ctx.repo.mod("preproc")
     ft = pre.func("find_turning_point")
     ctx.analysed(ft)
-    cps = [norm(st.value) for st in walk_no_nested(ft, False)
+    cpa = [st for st in walk_no_nested(ft, False)
            if isinstance(st, ast.Assign) and isinstance(st.value, ast.Call)
-           and call_name(st.value) == "np.copy"]
+           and call_name(st.value) in ("np.copy", "np.array")]
+    cps = [norm(st.value) for st in cpa]
     ctx.check(len(cps) == 2, ft, f"works on copies: {cps}",
               "find_turning_point normalises its inputs in place")
+    cnames = sorted(norm(st.targets[0]) for st in cpa)
     rets = [r for r in walk_no_nested(ft, False) if isinstance(r, ast.Return)]
-    R = Resolver(ft)
-    ok = bool(rets) and R.text(rets[0].value) in (
-        "np.argmax(x ** 2 + y ** 2)", "np.argmax(y ** 2 + x ** 2)")
+    R = Resolver(ft, keep=set(cnames))
+    ok = False
+    if rets and len(cnames) == 2:
+        a_, b_ = cnames
+        ok = R.text(rets[0].value) in (
+            f"np.argmax({a_} ** 2 + {b_} ** 2)",
+            f"np.argmax({b_} ** 2 + {a_} ** 2)")
     ctx.check(ok, ft, "turning point = farthest point in normalised "
               "coordinates", "turning point is not the argmax of x^2 + y^2")
 
